@@ -867,3 +867,65 @@ pub fn read_digests(path: &std::path::Path) -> std::collections::BTreeMap<String
     }
     m
 }
+
+// ---------------------------------------------------------------------------
+// array layouts: the simulation stages and the encoder accept any one-dimensional
+// `ArrayBase<S, Ix1>`, i.e. also strided, reversed and offset views
+
+pub const LAYOUTS: u8 = 6;
+
+pub fn layout_name(layout: u8) -> &'static str {
+    match layout % LAYOUTS {
+        0 => "owned-standard",
+        1 => "reversed-view(stride -1)",
+        2 => "view(stride 2)",
+        3 => "view(stride -2)",
+        4 => "offset-subrange",
+        _ => "owned-from-reversed-view",
+    }
+}
+
+/// calls `f` with a one-dimensional array (view) whose *logical* contents are `data` but whose
+/// memory layout is the requested one; `filler` occupies the memory cells the view skips
+pub fn with_layout<T: Clone, R>(data: &[T], filler: T, layout: u8, f: impl FnOnce(ndarray::ArrayView1<T>) -> R) -> R {
+    use ndarray::{Array1, s};
+    let n = data.len();
+    match layout % LAYOUTS {
+        0 => f(Array1::from_vec(data.to_vec()).view()),
+        1 => {
+            let backing = Array1::from_vec(data.iter().rev().cloned().collect());
+            f(backing.slice(s![..;-1]))
+        }
+        2 => {
+            let mut b = vec![filler; 2 * n];
+            for (i, x) in data.iter().enumerate() {
+                b[2 * i] = x.clone();
+            }
+            let backing = Array1::from_vec(b);
+            f(backing.slice(s![..;2]))
+        }
+        3 => {
+            // s![..;-2] of a length-2n array visits 2n-1, 2n-3, ..., 1
+            let mut b = vec![filler; 2 * n];
+            for (i, x) in data.iter().enumerate() {
+                b[2 * n - 1 - 2 * i] = x.clone();
+            }
+            let backing = Array1::from_vec(b);
+            f(backing.slice(s![..;-2]))
+        }
+        4 => {
+            let mut b = vec![filler.clone(); 1];
+            b.extend(data.iter().cloned());
+            b.push(filler.clone());
+            b.push(filler);
+            let backing = Array1::from_vec(b);
+            f(backing.slice(s![1..n + 1]))
+        }
+        _ => {
+            // to_owned() of a reversed view keeps the negative stride
+            let backing = Array1::from_vec(data.iter().rev().cloned().collect());
+            let owned = backing.slice(s![..;-1]).to_owned();
+            f(owned.view())
+        }
+    }
+}
